@@ -49,7 +49,9 @@ def explicit_step(w, sm, cells, ob, dt, r2='T2', r3='T3'):
     w.ctx.events.clear()
     construct = f"pdesolver.solveExplicitPDE/{w.dim}D"
     try:
-        new = w.call('pdesolver', 'solveExplicitPDE', old, dt, flat_vector(w, 'rhs'))
+        rhs_in = Box(flat_vector(w, 'rhs'))
+        rhs_in.frozen = 'rhs'
+        new = w.call('pdesolver', 'solveExplicitPDE', old, dt, rhs_in)
     except AbstractRaise as e:
         ob(r2, construct, False, f"raises {e.exc}: {e.msg}", fe.loc())
         new = None
@@ -75,8 +77,9 @@ def explicit_step(w, sm, cells, ob, dt, r2='T2', r3='T3'):
                         G = tuple(g if k == a else w.t[k] for k in range(w.dim))
                         ob(r2, construct + '/ghost', is_zero(val.at(G) - expect.at(G)), f"ghost {F.cstr(G)} = {fmt_rat(val.at(G), 6)}", fe.loc())
                 ob(r2, construct + '/BCs', new.attrs.get('BCs') is bc, "the new variable carries the boundary conditions of the old one", fe.loc())
-        muts = [e for e in w.ctx.events if e[0] == 'input-mutated' and str(e[1]).startswith('phi')]
-        ob(r3, construct + '/input-storage', not muts, f"writes into the input variable's storage: {muts[:3]}" if muts else "no write into phi_old storage on the clean path", fe.loc())
+        muts = [e for e in w.ctx.events if e[0] == 'input-mutated' and (str(e[1]).startswith('phi') or str(e[1]) == 'rhs')]
+        ob(r3, construct + '/input-storage', not muts, f"writes into the storage of its arguments (phi_old / the RHS vector the caller may reuse for the next step): {muts[:3]}" if muts
+           else "no write into phi_old or RHS storage on the clean path", fe.loc())
 
 
 def job(args):
